@@ -1,14 +1,14 @@
-// sched.h -- controlled thread scheduler for the liblzma MT coders (shared by C07 decoder and C08 encoder).
+// vsched.h -- controlled thread scheduler for the liblzma MT coders (shared by C07 decoder and C08 encoder).
 //
 // ============================================================================================
-// INTERFACE (read this; the implementation is sched.c)
+// INTERFACE (read this; the implementation is vsched.c; named vsched.* so that it never shadows the system <sched.h>)
 // ============================================================================================
 //
 // WHAT IT DOES
 //   liblzma reaches pthreads only through the static-inline wrappers of src/common/mythread.h:
 //     pthread_mutex_init/destroy/lock/unlock, pthread_cond_init/destroy/wait/timedwait/signal,
 //     pthread_create/join   (+ pthread_sigmask, pthread_condattr_*, clock_gettime: left alone).
-//   sched.c provides `__wrap_<sym>` for each of these (and trylock/broadcast for completeness). The harness is
+//   vsched.c provides `__wrap_<sym>` for each of these (and trylock/broadcast for completeness). The harness is
 //   linked with `-Wl,--wrap=<sym>` for every symbol in SCHED_WRAPPED (see tools/schedlib.py: WRAP_LDFLAGS), so every
 //   reference from liblzma.a and from the harness objects is routed through the scheduler; libc's, ASan's and
 //   TSan's own internal uses are NOT affected, and `__real_<sym>` still reaches the sanitizer's interceptor.
@@ -71,15 +71,15 @@
 //     ... lzma_stream_decoder_mt(...); lzma_code(...) ...; lzma_end(...)      // every worker must be joined
 //     sched_stats st; sched_end(&st);    // st.steps, st.threads, st.trace_hash, st.timeouts, st.spurious, ...
 //   Several controlled runs per process are fine (all tables are reset by sched_begin).
-//   Build: vlib.harness_build(name, [..., "sched.c"], variant, libs=schedlib.WRAP_LDFLAGS)
+//   Build: vlib.harness_build(name, [..., "vsched.c"], variant, libs=schedlib.WRAP_LDFLAGS)
 //
 // OBSERVER CALLBACK
 //   sched_set_observer(fn, ctx): fn(ctx, step, tid, op, obj_id) is called (by the running thread, while it holds
 //   the baton) at every scheduling point; used by harnesses to interleave their own protocol events with the schedule.
 //
 // ============================================================================================
-#ifndef VERIF_SCHED_H
-#define VERIF_SCHED_H
+#ifndef VERIF_VSCHED_H
+#define VERIF_VSCHED_H
 #include <stdint.h>
 #include <stddef.h>
 
